@@ -641,3 +641,23 @@ def _kv_str_ctor(em, node, args):
     if not real:
         return "((xc_str){\"\", 0})"
     raise ExtractionError("std::string construction with %d args" % len(real))
+
+
+# ---------------------------------------------------------------------------------------------
+# batch processors: shared_ptr<SynchronizationData> as a pointer, atomics as plain loads
+def _sync_ptr_type(em, base, targs, name):
+    if base in ("std::shared_ptr",) and targs and targs[0].strip().endswith("SynchronizationData"):
+        inner = em._ctype(targs[0])
+        return CT(inner.base, inner.ptr + 1)
+    return None
+
+
+def batch_boundary(cfg):
+    cfg.type_handlers.insert(0, _sync_ptr_type)
+    for k in ("std::__shared_ptr_access::operator->", "std::shared_ptr::operator->"):
+        cfg.ext_methods[k] = lambda em, recv, args, n: recv
+    for base in ("std::atomic", "std::__atomic_base"):
+        cfg.ext_methods[base + "::load"] = lambda em, recv, args, n: recv
+        cfg.ext_methods[base + "::operator unsigned long"] = lambda em, recv, args, n: recv
+        cfg.ext_methods[base + "::operator __int_type"] = lambda em, recv, args, n: recv
+        cfg.ext_methods[base + "::operator bool"] = lambda em, recv, args, n: recv
